@@ -1,5 +1,7 @@
 import SurfProofs.Lemmas.Utf8
 import SurfProofs.Lemmas.Utf8Decoder
+import SurfProofs.Lemmas.PayloadNumeric
+import SurfProofs.Lemmas.DecoderStream
 import SurfProofs.C03
 import SurfProofs.C15
 /-!
@@ -222,5 +224,163 @@ theorem C02_raw (A : Auto σ) (chunks : List (List UInt8)) :
   · intro pre b post hsplit
     rw [← h2, hsplit]
     simp [Item.bytes]
+
+/-! ## D. the payload decoders: no body can panic on a word of its own grammar; numeric fields -/
+
+open SurfModel.Grammar SurfModel.Payload SurfModel.Stream SurfModel.Decoders
+open SurfProofs.PayloadNumeric SurfProofs.DecoderStream
+
+/-- **Total.** For every family `k` of the event decoder and EVERY byte string `w` the grammar of `k` accepts,
+    the `Matcher::decode` body of `k` does not panic on `w`: every `len - n`, every slice, every index
+    (`data[2]`, `data[len-1]`, `pair[1]` of `hex_decode`), and the `from_u32_unchecked` assertion of `utf8_decode`
+    is in range.  (`.error .ext` — the named-colour parser of `rasterize`, not modelled — is the only other
+    non-`ok` outcome, for OSC colour reports only.) -/
+theorem C02_total (k : Family) (w : List UInt8) (h : (grammar k).Matches w) :
+    SurfModel.Payload.decode k (natBytes w) ≠ .error .panic :=
+  decode_total k w h
+
+example : (grammar .kittyKeyboard).Matches (bytes [27, 91, 117]) := by
+  apply (SurfProofs.ReMatch.matchB_iff _ _).mp
+  decide
+
+/-- the same for the two matchers of the command decoder (SGR, UTF-8 without `ESC`) -/
+theorem C02_total_command (i : Nat) (g : Re) (hg : commandGrammars[i]? = some g) (w : List UInt8) (h : g.Matches w) :
+    decodeCommand i (natBytes w) ≠ .error .panic :=
+  decodeCommand_total i g hg w h
+
+example : commandGrammars[1]? = some (SurfModel.Grammar.utf8Re 2) := rfl
+
+/-- characters of the two stream decoders are scalar values decoded from exactly their bytes: on a word of
+    the UTF-8 grammar (`mode` 1 event decoder, 2 command decoder) `utf8_decode` yields the scalar value whose
+    standard encoding the word is -/
+theorem C02_scalar_payload (mode : Nat) (w : List UInt8) (h : (SurfModel.Grammar.utf8Re mode).Matches w) :
+    ∃ c, SurfModel.Payload.utf8Decode (natBytes w) = .ok c ∧ Scalar c ∧ SurfModel.Vt.utf8 c = natBytes w :=
+  SurfProofs.PayloadTotal.utf8_payload mode w h
+
+/-- **Numeric.** For parameters written as digit strings of ANY length (empty, leading zeros,
+    40 digits): the decoded field is `clampDec` = decimal value clamped at `usize::MAX`; a zero coordinate
+    gives `None` (the tokenizer then reports the bytes as `Raw`); colour components above 255 make the colour
+    unrecognised.  Never a wrapped or underflowed value. -/
+theorem C02_numeric :
+    -- cursor position report
+    (∀ r c, Digits r → Digits c →
+      decodeCursorPosition ([27, 91] ++ ((r ++ 59 :: c) ++ [82])) =
+        if clampDec r = 0 ∨ clampDec c = 0 then .ok none
+        else .ok (some (.cursorPosition (clampDec r - 1) (clampDec c - 1)))) ∧
+    -- SGR mouse report, press (`M` = 77) and release (`m`)
+    (∀ e x y fin, Digits e → Digits x → Digits y →
+      decodeMouse ([27, 91, 60] ++ ((e ++ 59 :: (x ++ 59 :: y)) ++ [fin])) =
+        if clampDec x = 0 ∨ clampDec y = 0 then .ok none
+        else .ok (some (.mouse (mouseName (clampDec e))
+          (clampDec e / 4 % 8 + (if fin = 77 then modPress else 0)) (clampDec y - 1) (clampDec x - 1)))) ∧
+    -- kitty keyboard level
+    (∀ n, Digits n →
+      decodeKittyKeyboard ([27, 91] ++ ((63 :: n) ++ [117])) = .ok (some (.keyboardLevel (clampDec n)))) ∧
+    -- one half of the terminal size report
+    (∀ k h w, Digits k → Digits h → Digits w → k.length = 1 →
+      sizePair (91 :: (k ++ ((59 :: (h ++ 59 :: w)) ++ [116]))) = .ok (some (clampDec h, clampDec w))) ∧
+    -- true colour, semicolon and colon form
+    (∀ r g b rest, Digits r → Digits g → Digits b →
+      (SurfModel.Sgr.sgrColor ([50] :: r :: g :: b :: rest) false).1 =
+        if clampDec r ≤ 255 ∧ clampDec g ≤ 255 ∧ clampDec b ≤ 255
+        then some ⟨clampDec r, clampDec g, clampDec b, 255⟩ else none) ∧
+    (∀ r g b, Digits r → Digits g → Digits b →
+      (SurfModel.Sgr.sgrColor [[50], r, g, b] true).1 =
+        if clampDec r ≤ 255 ∧ clampDec g ≤ 255 ∧ clampDec b ≤ 255
+        then some ⟨clampDec r, clampDec g, clampDec b, 255⟩ else none) ∧
+    -- the clamp itself: `number_decode` on a digit string is the clamped decimal value
+    (∀ ds, Digits ds → SurfModel.Sgr.numberDecode ds = some (clampDec ds)) :=
+  ⟨cursorPosition_numeric, mouse_numeric, keyboardLevel_numeric, sizePair_numeric,
+   fun r g b rest hr hg hb => sgrColor_semicolon_numeric r g b hr hg hb rest,
+   sgrColor_colon_numeric, fun ds h => SurfProofs.Lemmas.Sgr.numberDecode_digits ds h⟩
+
+/-- the digit strings of the example: twenty nines (above `usize::MAX`) and a zero -/
+example : Digits (List.replicate 20 57) ∧ clampDec (List.replicate 20 57) = SurfModel.Vt.usizeMax ∧ clampDec [48] = 0 := by
+  refine ⟨?_, by decide, by decide⟩
+  intro d hd
+  simp at hd
+  omega
+
+/-- **Numeric, the remaining reports.** Device attributes, kitty image id / placement, the palette index of an
+    OSC 4 colour report, the kitty key code and the 256-colour index of SGR — again for digit strings of any
+    length. -/
+theorem C02_numeric_reports :
+    -- device attributes: the set of the clamped non-zero parameters
+    (∀ ps : List (List Nat), ps ≠ [] → (∀ p ∈ ps, Digits p) →
+      decodeDeviceAttrs ([27, 91, 63] ++ (SurfModel.Protocol.joinWith 59 ps ++ [99])) =
+        .ok (some (.deviceAttrs (sortDedup ((ps.map clampDec).filter (0 < ·)))))) ∧
+    -- kitty image response: id and placement
+    (∀ i p msg, Digits i → Digits p →
+      ∃ e, decodeKittyImage ([27, 95, 71] ++ ((([105, 61] ++ i ++ [44, 112, 61] ++ p) ++ 59 :: msg) ++ [27, 92])) =
+        .ok (some (.kittyImage (clampDec i) (some (clampDec p)) e))) ∧
+    -- palette index of an OSC 4 colour report
+    (∀ i, Digits i →
+      decodeOsc ([27, 93] ++ (([52, 59] ++ i ++ [59, 35, 48, 48, 48, 48, 48, 48]) ++ [7])) =
+        .ok (some (.color (.palette (clampDec i)) ⟨0, 0, 0, 255⟩))) ∧
+    -- kitty key code: a scalar value below 2^32 outside the private use block is the character itself
+    (∀ c, Digits c → clampDec c ≤ 4294967295 → SurfModel.Payload.isScalar (clampDec c) = true →
+      ¬ (57344 ≤ clampDec c ∧ clampDec c ≤ 63743) → clampDec c ∉ [27, 13, 9, 127] →
+      decodeKittyKeyboard ([27, 91] ++ (c ++ [117])) = .ok (some (.key ⟨.char (clampDec c), 0⟩))) ∧
+    -- 256-colour index
+    (∀ n rest colon, Digits n →
+      (SurfModel.Sgr.sgrColor ([53] :: n :: rest) colon).1 = SurfModel.Sgr.palette (clampDec n) ∧
+        (256 ≤ clampDec n → SurfModel.Sgr.palette (clampDec n) = none)) :=
+  ⟨deviceAttrs_numeric, kittyImage_numeric, palette_numeric, kittyKey_numeric,
+   fun n rest colon hn => sgrColor_indexed_numeric n hn rest colon⟩
+
+/-- **No panic on any stream (event decoder).** For every tagged automaton `A` that realises the combined
+    grammar of `TTY_EVENT_AUTOMATA` (same live words, accepting flags and tag sets as the DFA compiled from the
+    model grammar — the model DFA itself does, `C02_no_panic_stream_model`; the dumped production DFA is compared
+    with it by exhaustive bisimulation on every run) and reports `terminal` only for states without successor,
+    and for every way of cutting every byte stream into reads: the tokenizer succeeds (no panic, terminates),
+    every item is turned into an event without a panic (in particular an accepting state always carries a
+    tag, a key tag always denotes a key, a family tag a registered matcher, and the matcher's `decode` body stays
+    in range), and after the input is exhausted `decode` reports `None`. -/
+theorem C02_no_panic_stream {σ : Type} (A : TAuto σ) (hR : SurfProofs.ProtoStream.Realises A) (hT : A.toAuto.TermOk)
+    (chunks : List (List UInt8)) :
+    ∃ per s, feedAll A.toAuto (init A.toAuto) chunks = .ok (per, s) ∧
+      (∀ it ∈ per.flatten, eventOfItem A it ≠ .error .panic) ∧
+      SurfModel.Tokenizer.decode A.toAuto s [] = .ok (none, s, []) := by
+  obtain ⟨per, h1, h2⟩ := SurfProofs.C03.C03_tokenize_reads A.toAuto hT chunks
+  obtain ⟨per', s', g1, g2⟩ := C02_no_panic_stream_tokenizer A.toAuto chunks
+  rw [h1] at g1
+  simp only [Except.ok.injEq, Prod.mk.injEq] at g1
+  obtain ⟨e1, e2⟩ := g1
+  subst e1 e2
+  refine ⟨per, _, h1, ?_, g2⟩
+  intro it hit
+  rw [h2] at hit
+  exact eventOfItem_total A hR it (SurfProofs.C03.C03_token_sound A.toAuto _ it hit)
+
+/-- the hypotheses of `C02_no_panic_stream` hold for the DFA compiled from the model of the combined grammar -/
+theorem C02_no_panic_stream_model (chunks : List (List UInt8)) :
+    ∃ per s, feedAll modelAuto.toAuto (init modelAuto.toAuto) chunks = .ok (per, s) ∧
+      (∀ it ∈ per.flatten, eventOfItem modelAuto it ≠ .error .panic) ∧
+      SurfModel.Tokenizer.decode modelAuto.toAuto s [] = .ok (none, s, []) :=
+  C02_no_panic_stream modelAuto modelAuto_realises modelAuto_termOk chunks
+
+/-- **No panic on any stream (command decoder)**: the same statement for `TTYCommandDecoder`, over every tagged
+    automaton that realises the command grammar (SGR | UTF-8 without `ESC`). -/
+theorem C02_no_panic_stream_command {σ : Type} (A : TAuto σ) (hR : RealisesCommand A) (hT : A.toAuto.TermOk)
+    (chunks : List (List UInt8)) :
+    ∃ per s, feedAll A.toAuto (init A.toAuto) chunks = .ok (per, s) ∧
+      (∀ it ∈ per.flatten, commandOfItem A it ≠ .error .panic) ∧
+      SurfModel.Tokenizer.decode A.toAuto s [] = .ok (none, s, []) := by
+  obtain ⟨per, h1, h2⟩ := SurfProofs.C03.C03_tokenize_reads A.toAuto hT chunks
+  obtain ⟨per', s', g1, g2⟩ := C02_no_panic_stream_tokenizer A.toAuto chunks
+  rw [h1] at g1
+  simp only [Except.ok.injEq, Prod.mk.injEq] at g1
+  obtain ⟨e1, e2⟩ := g1
+  subst e1 e2
+  refine ⟨per, _, h1, ?_, g2⟩
+  intro it hit
+  rw [h2] at hit
+  exact commandOfItem_total A hR it (SurfProofs.C03.C03_token_sound A.toAuto _ it hit)
+
+theorem C02_no_panic_stream_command_model (chunks : List (List UInt8)) :
+    ∃ per s, feedAll commandModelAuto.toAuto (init commandModelAuto.toAuto) chunks = .ok (per, s) ∧
+      (∀ it ∈ per.flatten, commandOfItem commandModelAuto it ≠ .error .panic) ∧
+      SurfModel.Tokenizer.decode commandModelAuto.toAuto s [] = .ok (none, s, []) :=
+  C02_no_panic_stream_command commandModelAuto commandModelAuto_realises commandModelAuto_termOk chunks
 
 end SurfProofs.C02
